@@ -1,9 +1,14 @@
 #!/bin/bash
 # Regenerates every evidence file on the current tree: ./run_all.sh [quick|thorough] [IDs...]
+# Prints, per check, the lines that matter (verdict, violations, inconclusive shards, known findings) and its exit status.
 tier=${1:-quick}; shift
 ids=${@:-$(python3 -c "import sys; sys.path.insert(0,'/verif'); from checks_config import CHECKS; print(' '.join(sorted(CHECKS)))")}
 rc=0
 for id in $ids; do
-  ./check $id --tier $tier 2>&1 | tail -3 || rc=1
+  ./check $id --tier $tier > /tmp/run_all.$$.out 2>&1; r=$?
+  grep -E "^(VIOLATION|KNOWN-FINDING|violation found|inconclusive|deadlock|race report|note:|BUILD-FAILED|C[0-9]+ (quick|thorough):)" /tmp/run_all.$$.out | cut -c1-400
+  echo "$id exit=$r"
+  [ $r -ne 0 ] && rc=1
 done
+rm -f /tmp/run_all.$$.out
 exit $rc
